@@ -1,6 +1,6 @@
 //! C07: compilation is deterministic.
 //!
-//! request : C07.repeat \t <dx|vk|vkba|msl> \t <all|nopipeline> \t <gen:<seed> | clash:<seed> | disk:<root>|<entry>
+//! request : C07.repeat \t <dx|vk|vkba|msl> \t <all|nopipeline> \t <gen:<seed> | clash:<seed> | share:<seed> | disk:<root>|<entry>
 //!                                                                  | diag:<family>:<seed> | src:<hex of the source>>
 //! observe : digest of sources + stages + metadata + pipeline state, or of the fully rendered diagnostic
 //!           (message, file, line, column, source excerpt, notes) followed by `|<stage>/<error variant>`
@@ -33,6 +33,9 @@ fn source_of(id: &str) -> Option<Input> {
     } else if let Some(seed) = id.strip_prefix("clash:") {
         let seed: u64 = seed.parse().ok()?;
         Some(mem(clash_program(&mut Rng::new(seed))))
+    } else if let Some(seed) = id.strip_prefix("share:") {
+        let seed: u64 = seed.parse().ok()?;
+        Some(mem(share_program(&mut Rng::new(seed))))
     } else if let Some(rest) = id.strip_prefix("disk:") {
         let (root, entry) = rest.split_once('|')?;
         Some(Input { disk: Some((root.to_string(), entry.to_string())), files: Vec::new(), layout: false })
@@ -89,6 +92,71 @@ fn clash_program(rng: &mut Rng) -> String {
         }
         if rng.chance(1, 2) {
             s.push_str("struct Data\n{\n    float value;\n};\n");
+        }
+        if scope.is_some() {
+            s.push_str("}\n");
+        }
+    }
+    s.push_str("[numthreads(1, 1, 1)]\nvoid entry()\n{\n");
+    for c in &calls {
+        s.push_str(c);
+    }
+    s.push_str("}\nPipeline P\n{\n    ComputeShader = entry;\n}\n");
+    s
+}
+
+/// Programs that fix 31dddea made acceptable: in the global scope and in 1-3 namespaces, overloaded functions
+/// that share their name with a struct declared before them (and used as a type before the functions hide it) or
+/// with a struct / enum / cbuffer declared after them.  Every exporter has to give the same-named symbols of one
+/// scope different names, so the generated suffixes must not follow the order of a hash container.
+fn share_program(rng: &mut Rng) -> String {
+    let bases = ["Item", "pick", "main", "Light", "Widget", "vertex", "kernel", "Data", "constant", "helper"];
+    let nns = rng.range(1, 3) as usize;
+    let mut s = String::from("static int s_total = 0;\n");
+    let mut calls: Vec<String> = Vec::new();
+    let scopes: Vec<Option<String>> = std::iter::once(None).chain((0..nns).map(|k| Some(format!("ns{}", k)))).collect();
+    for scope in &scopes {
+        if let Some(ns) = scope {
+            s.push_str(&format!("namespace {}\n{{\n", ns));
+        }
+        let q = match scope { Some(ns) => format!("{}::", ns), None => String::new() };
+        let tag = match scope { Some(ns) => ns.clone(), None => "g".to_string() };
+        let nbases = rng.range(1, 3) as usize;
+        let mut chosen: Vec<&str> = Vec::new();
+        while chosen.len() < nbases {
+            let b = *rng.pick(&bases);
+            if !chosen.contains(&b) {
+                chosen.push(b);
+            }
+        }
+        for b in &chosen {
+            let before = rng.chance(1, 3);
+            if before {
+                // the type is declared and used first; the functions hide it afterwards
+                s.push_str(&format!("struct {}\n{{\n    float value;\n}};\nfloat read_{}_{}({} p)\n{{\n    return p.value;\n}}\nstatic {} held_{}_{};\n", b, tag, b, b, b, tag, b));
+                calls.push(format!("    {}read_{}_{}({}held_{}_{});\n", q, tag, b, q, tag, b));
+            }
+            let overloads = rng.range(1, 3);
+            let tys = ["int", "float", "uint"];
+            for o in 0..overloads {
+                let ty = tys[o as usize];
+                s.push_str(&format!("{} {}({} x)\n{{\n    s_total = s_total + 1;\n    return x;\n}}\n", ty, b, ty));
+                let arg = match ty { "int" => "(int)1", "float" => "1.0f", _ => "1u" };
+                calls.push(format!("    {}{}({});\n", q, b, arg));
+            }
+            if !before {
+                match rng.below(3) {
+                    0 => s.push_str(&format!("struct {}\n{{\n    float value;\n}};\n", b)),
+                    1 => {
+                        s.push_str(&format!("enum {}\n{{\n    {}_{}_First,\n    {}_{}_Second\n}};\n", b, tag, b, tag, b));
+                        calls.push(format!("    s_total = s_total + (int){}{}_{}_Second;\n", q, tag, b));
+                    }
+                    _ => {
+                        s.push_str(&format!("cbuffer {}\n{{\n    float4 member_{}_{};\n}};\n", b, tag, b));
+                        calls.push(format!("    s_total = s_total + (int){}member_{}_{}.x;\n", q, tag, b));
+                    }
+                }
+            }
         }
         if scope.is_some() {
             s.push_str("}\n");
@@ -307,6 +375,8 @@ fn run_requests(lines: &[String], out: &mut Out, hist: &mut Hist) {
             "source=generated"
         } else if id.starts_with("clash:") {
             "source=name-clash"
+        } else if id.starts_with("share:") {
+            "source=name-shared-in-scope"
         } else if id.starts_with("diag:") {
             "source=diagnostics-generator"
         } else if id.starts_with("src:") {
@@ -328,7 +398,11 @@ fn run_requests(lines: &[String], out: &mut Out, hist: &mut Hist) {
             for (n, f) in &input.files {
                 eprintln!("---- {} [{}]\n{}", n, line, f);
             }
-            eprintln!("==== {}\n{}", o, match &a { CompileOutcome::Err(e) => e.clone(), other => other.digest() });
+            eprintln!("==== {}\n{}", o, match &a {
+                CompileOutcome::Err(e) => e.clone(),
+                CompileOutcome::Ok(ps) => ps.iter().map(|p| format!("{}\nstages: {:?}\nmeta: {}\nstate: {}", String::from_utf8_lossy(&p.data), p.stages, p.metadata, p.state)).collect::<Vec<_>>().join("\n-- next pipeline --\n"),
+                other => other.digest(),
+            });
         }
         first.push(d0);
         shows.push(show(&a));
@@ -425,6 +499,13 @@ pub fn run(args: &Args, out: &mut Out) {
                     lines.push(format!("C07.repeat\t{}\tall\tdiag:{}:{}", t.name(), family, seed));
                 }
             }
+        }
+    }
+    // functions sharing their name with a struct / enum / cbuffer of the same scope (accepted since fix 31dddea)
+    for _ in 0..n / 2 {
+        let seed = rng.next() >> 16;
+        for t in ALL_TARGETS {
+            lines.push(format!("C07.repeat\t{}\tall\tshare:{}", t.name(), seed));
         }
     }
     // the repository's own rejected inputs (first argument of check_fail / check_fail_message in the typer tests)
